@@ -3900,6 +3900,17 @@ fn directed_c10(w: &mut dyn Write, rng: &mut Rng, n: &mut usize, thorough: bool)
             }
         }
     }
+    // (000000000000) `rt=slow`: commands sent — through the owner and through cloned handles, back to back (`j`
+    // a multiple of 3: no pauses) — the moment `Arbiter::with_tokio_rt` has returned, whatever the new thread is
+    // still busy with: they start in the order sent
+    for (k, j) in [(0usize, 3u64), (1, 6), (2, 9)] {
+        let l = match k {
+            0 => vec![s("@rt=slow"), s("arb"), s("spawn 0 own fn"), s("spawn 0 h1 fut"), s("spawn 0 own fn"), s("spawn 0 h2 fn"), s("spawn 0 own fut"), s("spawn 0 h1 fn"), s("wait t5"), s("stop 0 own"), format!("go j={j}")],
+            1 => vec![s("@rt=slow"), s("arb"), s("arb"), s("spawnn 1 own fn 6"), s("spawn 0 h1 fn"), s("spawnn 1 h2 fut 3"), s("wait t9"), s("wait t6"), s("stop 1 own"), s("stop 0 h1"), format!("go j={j}")],
+            _ => vec![s("@rt=slow"), s("sysarb"), s("arb"), s("spawn 1 h1 pend"), s("spawn 1 own fn"), s("spawn 0 own fn"), s("spawn 1 h2 yield"), s("wait t3"), s("stop 1 h1"), s("stop 0 own"), format!("go j={j}")],
+        };
+        case(w, &l, rng);
+    }
     // (00000000000) `rt=multi`: arbiters (and the system) on MULTI-THREAD Tokio runtimes — commands still run in
     // order on the arbiter's own thread, where `Arbiter::current()` is that arbiter; and what a loop's last poll
     // spawned next to the `Stop` does not start once the loop has ended (probing runs: even `j`)
@@ -4102,7 +4113,7 @@ fn gen_c10(a: &Args, w: &mut dyn Write) {
     // (1) seeded random sequences over the full alphabet: 1–2 arbiters and/or the system arbiter
     let count = if thorough { 800 } else { 90 };
     for _ in 0..count {
-        writeln!(w, "case r{n} c10{}", ["", "", "", "", "", " rt=custom", " rt=multi", " rt=multi"][rng.below(8)]).unwrap();
+        writeln!(w, "case r{n} c10{}", ["", "", "", "", "", " rt=custom", " rt=multi", " rt=multi", " rt=slow"][rng.below(if thorough { 9 } else { 8 })]).unwrap();
         n += 1;
         let hosted = rng.chance(1, 8);
         if hosted {
